@@ -18,6 +18,7 @@ import (
 	"time"
 
 	"ergo.services/ergo/gen"
+	"ergo.services/ergo/lib"
 	"ergo.services/ergo/net/handshake"
 	"ergo.services/ergo/net/proto"
 )
@@ -87,6 +88,8 @@ type w5Route struct {
 	Kind    string // method name without "Route"
 	From    gen.PID
 	To      string // canonical addressee: fmt of PID / ProcessID / Alias / Event
+	ToID    uint64 // numeric id of the addressee (PID id, first alias word)
+	ToName  string // name of the addressee (process name, event name)
 	Prio    int
 	Ref     gen.Ref
 	Payload any   // message / reason / error
@@ -189,16 +192,16 @@ func (c *w5Core) RouteCallAlias(from gen.PID, to gen.Alias, o gen.MessageOptions
 	return c.rec(w5Route{Kind: "CallAlias", From: from, To: w5alias(to), Prio: int(o.Priority), Ref: o.Ref, Payload: m, Ret: w5Script(to.ID[0])})
 }
 func (c *w5Core) RouteTerminatePID(t gen.PID, reason error) error {
-	return c.rec(w5Route{Kind: "TerminatePID", To: w5pid(t), Payload: reason})
+	return c.rec(w5Route{Kind: "TerminatePID", To: w5pid(t), ToID: t.ID, Payload: reason})
 }
 func (c *w5Core) RouteTerminateProcessID(t gen.ProcessID, reason error) error {
-	return c.rec(w5Route{Kind: "TerminateProcessID", To: w5name(t), Payload: reason})
+	return c.rec(w5Route{Kind: "TerminateProcessID", To: w5name(t), ToName: string(t.Name), Payload: reason})
 }
 func (c *w5Core) RouteTerminateEvent(t gen.Event, reason error) error {
-	return c.rec(w5Route{Kind: "TerminateEvent", To: w5event(t), Payload: reason})
+	return c.rec(w5Route{Kind: "TerminateEvent", To: w5event(t), ToName: string(t.Name), Payload: reason})
 }
 func (c *w5Core) RouteTerminateAlias(t gen.Alias, reason error) error {
-	return c.rec(w5Route{Kind: "TerminateAlias", To: w5alias(t), Payload: reason})
+	return c.rec(w5Route{Kind: "TerminateAlias", To: w5alias(t), ToID: t.ID[0], Payload: reason})
 }
 func (c *w5Core) RouteLinkPID(pid gen.PID, t gen.PID) error {
 	return c.rec(w5Route{Kind: "LinkPID", From: pid, To: w5pid(t), Ret: w5Script(t.ID)})
@@ -219,11 +222,11 @@ func (c *w5Core) RouteMonitorProcessID(pid gen.PID, t gen.ProcessID) error {
 	return c.rec(w5Route{Kind: "MonitorProcessID", From: pid, To: w5name(t), Ret: c.byName(t.Name)})
 }
 
-func w5pid(p gen.PID) string     { return fmt.Sprintf("pid:%s/%d/%d", p.Node, p.ID, p.Creation) }
-func w5name(p gen.ProcessID) string { return fmt.Sprintf("name:%s/%s", p.Node, p.Name) }
-func w5event(e gen.Event) string { return fmt.Sprintf("event:%s/%s", e.Node, e.Name) }
+func w5pid(p gen.PID) string     { return fmt.Sprintf("pid:%s/%d/%d", string(p.Node), p.ID, p.Creation) }
+func w5name(p gen.ProcessID) string { return fmt.Sprintf("name:%s/%s", string(p.Node), string(p.Name)) }
+func w5event(e gen.Event) string { return fmt.Sprintf("event:%s/%s", string(e.Node), string(e.Name)) }
 func w5alias(a gen.Alias) string {
-	return fmt.Sprintf("alias:%s/%d.%d.%d/%d", a.Node, a.ID[0], a.ID[1], a.ID[2], a.Creation)
+	return fmt.Sprintf("alias:%s/%d.%d.%d/%d", string(a.Node), a.ID[0], a.ID[1], a.ID[2], a.Creation)
 }
 
 // ---------------------------------------------------------------------------
@@ -524,3 +527,18 @@ type w5Addr struct{}
 
 func (w5Addr) Network() string { return "w5" }
 func (w5Addr) String() string  { return "w5" }
+
+func netPipe() (net.Conn, net.Conn) { return net.Pipe() }
+
+func libTake() *lib.Buffer {
+	b := lib.TakeBuffer()
+	b.Reset()
+	return b
+}
+
+func imin(a, b int) int {
+	if a < b {
+		return a
+	}
+	return b
+}
